@@ -79,8 +79,10 @@ fn read_heartbeat(path: &str, workers: usize) -> Vec<u64> {
 
 fn spawn_limited(args: &[String], envs: &[(&str, String)], mem_kb: u64) -> std::io::Result<std::process::Child> {
     let exe = std::env::current_exe()?;
-    let mut script = format!("ulimit -v {} 2>/dev/null; exec \"$0\" \"$@\"", mem_kb);
-    if std::env::var_os("VERIF_NO_MEMLIMIT").is_some() {
+    let mut script = format!("ulimit -S -v {} 2>/dev/null; exec \"$0\" \"$@\"", mem_kb);
+    // the shuttle engine leaks the (mostly untouched) stacks of the tasks of a deadlocked execution:
+    // an address-space limit would kill it after a few thousand detected deadlocks
+    if std::env::var_os("VERIF_NO_MEMLIMIT").is_some() || cfg!(feature = "proc") {
         script = "exec \"$0\" \"$@\"".to_string();
     }
     let mut c = Command::new("sh");
